@@ -393,6 +393,132 @@ impl Exec {
         }
     }
 
+    /// `op boot k extra <uid>`: a REAL server session on the journal cut after k records + `extra` bytes:
+    /// `bootstrap::init_hq_server` (-> `start_server`: load, restore, `initialize_server` with the counters and the truncate
+    /// size, re-submission of the restored tasks) in a fresh server directory, a client connects over TCP and stops the
+    /// server; then the resulting file is restored once more. Only for prefixes without allocation queues (the restored
+    /// autoalloc process would talk to the batch system).
+    pub fn op_boot(&mut self, tr: &mut Trace, k: usize, extra: u64) {
+        use hyperqueue::client::globalsettings::GlobalSettings;
+        use hyperqueue::client::output::quiet::Quiet;
+        use hyperqueue::server::bootstrap::{ServerConfig, get_client_session, init_hq_server};
+        self.load_file();
+        let cut = ((self.boundary(k) + extra) as usize).min(self.file.len());
+        let p = self.dir.join("boot.bin");
+        std::fs::write(&p, &self.file[..cut]).unwrap();
+        let (spec, producible, _) = Spec::of(&self.recs[..k]);
+        let sd = self.dir.join(format!("sd-{k}-{extra}"));
+        let _ = std::fs::remove_dir_all(&sd);
+        std::fs::create_dir_all(&sd).unwrap();
+        let journal = p.clone();
+        let sd2 = sd.clone();
+        // the starting server prints its directory to stdout: keep it out of the trace (the trace's own buffer is above the
+        // process-wide stdout handle: push everything written so far through before the descriptor is swapped)
+        tr.flush();
+        let saved = unsafe {
+            let devnull = std::ffi::CString::new("/dev/null").unwrap();
+            let null_fd = libc::open(devnull.as_ptr(), libc::O_WRONLY);
+            let saved = libc::dup(1);
+            libc::dup2(null_fd, 1);
+            libc::close(null_fd);
+            saved
+        };
+        let res: Result<Result<(), String>, String> = catch(move || {
+            let rt = tokio::runtime::Builder::new_current_thread().enable_all().build().unwrap();
+            rt.block_on(async move {
+                let gs = GlobalSettings::new(sd2.clone(), Box::new(Quiet));
+                let cfg = ServerConfig {
+                    worker_host: "localhost".to_string(),
+                    client_host: "localhost".to_string(),
+                    idle_timeout: None,
+                    client_port: None,
+                    worker_port: None,
+                    journal_path: Some(journal),
+                    journal_flush_period: std::time::Duration::from_secs(30),
+                    worker_secret_key: None,
+                    client_secret_key: None,
+                    server_uid: None,
+                    scheduler_mip_time_limit: std::time::Duration::from_secs(5),
+                };
+                let server = init_hq_server(&gs, cfg);
+                tokio::pin!(server);
+                let client = async {
+                    let mut session = loop {
+                        match get_client_session(&sd2).await {
+                            Ok(s) => break s,
+                            Err(_) => tokio::time::sleep(std::time::Duration::from_millis(10)).await,
+                        }
+                    };
+                    let _ = hyperqueue::client::server::client_stop_server(session.connection()).await;
+                };
+                tokio::pin!(client);
+                let session = async {
+                    let mut client_done = false;
+                    loop {
+                        tokio::select! {
+                            r = &mut server => break r,
+                            _ = &mut client, if !client_done => { client_done = true; }
+                        }
+                    }
+                };
+                match tokio::time::timeout(std::time::Duration::from_secs(20), session).await {
+                    Ok(Ok(())) => Ok(()),
+                    Ok(Err(e)) => Err(format!("{e:#}")),
+                    Err(_) => Err("server session did not end within 20 s".to_string()),
+                }
+            })
+        });
+        {
+            // whatever the server left in the process-wide stdout buffer goes to /dev/null too
+            use std::io::Write;
+            let _ = std::io::stdout().flush();
+        }
+        unsafe {
+            libc::dup2(saved, 1);
+            libc::close(saved);
+        }
+        // the uid of the session the real server appended (the journal's own uid, or a new one for a journal without a start record)
+        let after = read_journal(&p);
+        let appended: Vec<Rec> = after.as_ref().map(|(rs, _)| rs.iter().skip(k).cloned().collect()).unwrap_or_default();
+        let uid = appended.iter().find_map(|r| if let Rec::Start(u) = r { Some(u.clone()) } else { None }).unwrap_or_else(|| "-".to_string());
+        tr.op(&format!("boot {k} {extra} {uid}"));
+        match &res {
+            Ok(Ok(())) => tr.out("boot ok"),
+            Ok(Err(e)) => tr.out(&format!("boot error {}", e.replace('\n', " ").chars().take(120).collect::<String>().replace(' ', "_"))),
+            Err(m) => tr.out(&format!("!panic {}", panic_kw(m))),
+        }
+        let v2 = real_restore(&p);
+        for l in v2.lines() { tr.out(&l); }
+        if !self.monitors || !producible { return; }
+        if !matches!(res, Ok(Ok(()))) {
+            tr.mon_fail("c10.boot", "restart-failed", &format!("the server did not start and stop cleanly on the journal cut at {k}+{extra}: {res:?}"));
+            return;
+        }
+        match &after {
+            Err(e) => tr.mon_fail("c10.boot", "journal-unreadable-after-restart", &format!("after a restart from the journal cut at {k}+{extra} the file does not read back: {e}")),
+            Ok((_, true)) => tr.mon_fail("c10.boot", "journal-unreadable-after-restart", &format!("after a restart from the journal cut at {k}+{extra} the file ends in partial data")),
+            Ok((rs, false)) => {
+                let kinds_ok = rs.len() == k + 2 && rs[..k] == self.recs[..k] && matches!(rs[k], Rec::Start(_)) && matches!(rs[k + 1], Rec::Stop);
+                if !kinds_ok {
+                    tr.mon_fail("c10.boot", "journal-content-after-restart", &format!("after a restart from the journal cut at {k}+{extra} the file holds {} records, expected the {k} complete ones + ServerStart + ServerStop; appended: {:?}", rs.len(), appended.iter().map(|r| r.tokens()).collect::<Vec<_>>()));
+                }
+                if !spec.uid.is_empty() && uid != spec.uid {
+                    tr.mon_fail("c11.uid", "server-uid-changed", &format!("the journal belongs to server {} but the restarted server recorded uid {uid}", spec.uid));
+                }
+            }
+        }
+        // reference: the same records written to a fresh file
+        let c = self.dir.join("clean.bin");
+        let mut recs: Vec<Rec> = self.recs[..k].to_vec();
+        recs.push(Rec::Start(uid));
+        recs.push(Rec::Stop);
+        write_journal(&c, &recs);
+        let vc = real_restore(&c);
+        if v2 != vc {
+            tr.mon_fail("c10.boot", "second-restart-after-real-boot", &format!("restart from (journal cut at {k}+{extra} + one real server session) gives `{}`, the same records in a clean file give `{}`", v2.status, vc.status));
+        }
+    }
+
     /// `op sprune k jobs workers k2`: the REAL journal thread (`start_event_streaming` -> `streaming_process`) receives the
     /// first k records as events (not flushed: flush period one hour), then a `PruneJournal` request with the live sets,
     /// then the records k..k2, then its channel closes. Prints the records of the resulting file.
